@@ -48,6 +48,7 @@ def _work(args):
         # equalities between axis lengths must not matter either: one assignment with all non-1 lengths equal, one with all of them pairwise distinct
         variants.append({k: (v if v == 1 else 3) for k, v in base.items()})
         variants.append({k: (v if v == 1 else 2 + i) for i, (k, v) in enumerate(sorted(base.items()))})
+        variants.append({k: (v if v == 1 else 2 + len(base) - i) for i, (k, v) in enumerate(sorted(base.items()))})  # every pair of axes also in the opposite length order
         texts = []
         case0 = None
         for sz in variants:
@@ -102,6 +103,8 @@ def run(tier, seed):
     from ..kernels.base import run_kernel
     for k in [q for q in c01_numpy_wrappers.KERNELS if q.prop == "C17"]:
         chk.add_kernel(run_kernel(k, tier))
+    ok, sites, failing = frame.rule_join_order()
+    chk.add_rule("C17.S.join_order", ok, sites, failing)
     ok, sites, failing = frame.rule_template()
     chk.add_rule("C17.S.template", ok, sites, failing)
     n = 10 if tier == "quick" else 400
